@@ -59,6 +59,10 @@ class WsConnA:
     def vanish(self):
         self.vanished = True
 
+    def stall(self, dur):
+        """(see WsConnT.stall: the server's send() awaits that long)"""
+        self.stall_until = self.sim.now + dur
+
     def texts(self):
         return [f['frame'] for f in self.frames]
 
@@ -103,6 +107,9 @@ class WsConnA:
             if self.disconnect_delivered or self.client_closed or \
                     self.send_fails:
                 raise ClientGone('peer gone')
+            rem = getattr(self, 'stall_until', 0) - self.sim.now
+            if rem > 0:
+                await asyncio.sleep(rem)    # flow control: send() awaits
             b, t = ev.get('bytes'), ev.get('text')
             if (b is None) == (t is None):
                 self.proto.append('websocket.send with bytes=%r text=%r' % (
@@ -455,6 +462,32 @@ class SimA(SimBase):
                 t.finish()
         t.task = self.loop.create_task(run())
         return t
+
+    def lifespan_cycle(self):
+        """The ASGI server runs one lifespan scope to its end on the
+        application object (startup, shutdown) and goes on serving with the
+        same object - what development reloaders and in-process test
+        clients do. Returns the lifespan events the application sent."""
+        inbox = [{'type': 'lifespan.startup'}, {'type': 'lifespan.shutdown'}]
+        sent = []
+
+        async def receive():
+            if inbox:
+                return inbox.pop(0)
+            await asyncio.sleep(3600)
+
+        async def send(ev):
+            sent.append(ev['type'])
+        task = self.loop.create_task(self.app({'type': 'lifespan'}, receive,
+                                              send))
+        self.loop.quiesce()
+        if not task.done():
+            task.cancel()
+            self.loop.quiesce()
+            sent.append('<lifespan scope did not end>')
+        elif task.exception() is not None:
+            sent.append('<raised %r>' % (task.exception(),))
+        return sent
 
     # --------------------------------------------------------------- running
     def quiesce(self):
